@@ -16,7 +16,7 @@
    themselves on the implementation is checked by the correspondence; its derivation from a
    denotational semantics belongs to the engine family.)
    Statements only; every proof is one [exact]. *)
-Require Import Base Rank RankLemmas RankFacts Intern InternFacts InternWf.
+Require Import Base Rank RankLemmas RankFacts Intern InternFacts InternWf InternShare.
 From Coq Require Import Arith Permutation.
 
 (* --- the interning key ----------------------------------------------------------------------- *)
@@ -86,6 +86,19 @@ Theorem sinks_distinct : forall sharing prog order w l1 l2 i d ins,
 Proof. exact InternFacts.run_bypass_distinct. Qed.
 Print Assumptions sinks_distinct.
 
+(* Sharing is COMPLETE (sharing on): two executed statements that intern and have equal keys — same
+   definition, schemas, scalars, inputs resolved to the same nodes — get ONE node, whatever was executed
+   in between.  In particular a consumer of the first one's hidden error output
+   (exception_time_series(p): Wiring::activate_error_capture amends p's instance in place) wired between
+   two equal statements does not separate them: error capture is not part of the key and does not
+   move the instance in the table ([captured] is read off the wired inputs). *)
+Theorem equal_keys_share : forall prog order w l1 l2 k,
+  NoDup order -> wire_prog true prog order = Ok w -> In l1 order -> In l2 order ->
+  shared_key prog w l1 k -> shared_key prog w l2 k ->
+  exists i, alookup l1 (w_env w) = Some i /\ alookup l2 (w_env w) = Some i.
+Proof. exact InternShare.equal_keys_share. Qed.
+Print Assumptions equal_keys_share.
+
 (* --- sharing and statement order are unobservable -------------------------------------------- *)
 (* Whatever the order and whether or not sharing is on, the node a statement is given unfolds, to
    every depth, to the dataflow the PROGRAM ascribes to that statement — passive markers included
@@ -145,7 +158,7 @@ Print Assumptions compile_rejects_exactly_cycles.
 Definition dsrc (k : nat) (s : Z) : ndef := {| nd_def := k; nd_sch := [1]; nd_scal := Some [s]; nd_uniq := false; nd_push := false |}.
 Definition dadd : ndef := {| nd_def := 3; nd_sch := [1]; nd_scal := None; nd_uniq := false; nd_push := false |}.
 Definition dsink : ndef := {| nd_def := 0; nd_sch := [0]; nd_scal := None; nd_uniq := false; nd_push := false |}.
-Definition pin (l : nat) : input := {| in_src := SPeer l []; in_tpath := []; in_rank := true; in_passive := false |}.
+Definition pin (l : nat) : input := {| in_src := SPeer l [] 0; in_tpath := []; in_rank := true; in_passive := false |}.
 (* 0: a = src(7)  1: b = src(8)  2: add(a,b)  3: add(a,b) again  4: add(b,a)  5: sink(2)  6: sink(3)  7: sink(4) *)
 Definition ex_prog : list stmt :=
   [StNode (dsrc 0 7) []; StNode (dsrc 0 8) []; StNode dadd [pin 0; pin 1]; StNode dadd [pin 0; pin 1];
@@ -170,7 +183,7 @@ Proof. vm_compute. reflexivity. Qed.
 (* a loop through a placeholder: rejected; the same loop closed by a rank-free input: built *)
 Definition ex_loop (rank : bool) : list stmt :=
   [StPlace; StNode (dsrc 0 1) [];
-   StNode dadd [{| in_src := SPeer 1 []; in_tpath := []; in_rank := true; in_passive := false |}; {| in_src := SDelay 0 []; in_tpath := []; in_rank := rank; in_passive := false |}];
+   StNode dadd [{| in_src := SPeer 1 [] 0; in_tpath := []; in_rank := true; in_passive := false |}; {| in_src := SDelay 0 []; in_tpath := []; in_rank := rank; in_passive := false |}];
    StNode dadd [pin 2]; StBind 0 3 []; StNode dsink [pin 3]]%nat.
 Example ex_loop_rejected : compile (ex_loop true) [0; 1; 2; 3; 4; 5]%nat = Rejected E_CYCLE.
 Proof. vm_compute. reflexivity. Qed.
@@ -206,7 +219,7 @@ Proof. exact InternFacts.order_independent_old_rule_refuted. Qed.
 Print Assumptions order_independent_old_rule_refuted.
 
 (* Under the repaired rule the pair is two nodes, each with its own active list, in either order. *)
-Definition ppin (l : nat) : input := {| in_src := SPeer l []; in_tpath := []; in_rank := true; in_passive := true |}.
+Definition ppin (l : nat) : input := {| in_src := SPeer l [] 0; in_tpath := []; in_rank := true; in_passive := true |}.
 Definition px_prog : list stmt :=
   [StNode (dsrc 0 7) []; StNode (dsrc 0 8) []; StNode dadd [ppin 0; pin 1]; StNode dadd [pin 0; pin 1];
    StNode dsink [pin 2]; StNode dsink [pin 3]]%nat.
@@ -215,4 +228,15 @@ Example px_two_nodes :
    match compile px_prog [0; 1; 3; 2; 4; 5]%nat with Built w _ _ _ => map (fun it => (i_label it, active_slots it)) (w_insts w) | _ => [] end)
   = ([(0, []); (1, []); (2, [1]); (3, [0; 1]); (4, [0]); (5, [0])],
      [(0, []); (1, []); (3, [0; 1]); (2, [1]); (4, [0]); (5, [0])])%nat.
+Proof. vm_compute. reflexivity. Qed.
+
+(* error capture interleaved with duplicate wires: p, a consumer of p's error output, a duplicate q of p,
+   in the orders "p err q" and "p q err": q shares p's node in both, and p is captured in both *)
+Definition ec_err (l : nat) : input := {| in_src := SPeer l [] 1; in_tpath := []; in_rank := true; in_passive := false |}.
+Definition ec_prog : list stmt :=
+  [StNode (dsrc 0 7) []; StNode dadd [pin 0]; StNode dadd [pin 0]; StNode dsink [ec_err 1]; StNode dsink [pin 2]]%nat.
+Example ec_orders :
+  (match wire_prog true ec_prog [0; 1; 3; 2; 4]%nat with Ok w => (alookup 1 (w_env w), alookup 2 (w_env w), length (w_insts w), captured w 1) | Err _ => (None, None, O, false) end,
+   match wire_prog true ec_prog [0; 1; 2; 3; 4]%nat with Ok w => (alookup 1 (w_env w), alookup 2 (w_env w), length (w_insts w), captured w 1) | Err _ => (None, None, O, false) end)
+  = ((Some 1, Some 1, 4, true), (Some 1, Some 1, 4, true))%nat.
 Proof. vm_compute. reflexivity. Qed.
